@@ -157,6 +157,13 @@ def larger_configs(tier):
                  'size': [3, 4], 'noise': 'depol', 'p': 0.08, 'dec_kwargs': {'max_bp_iter': 8}})
     cfgs.append({'decoder': 'MatchingDecoder', 'code': 'RotatedPlanar2DCode', 'size': [3, 5],
                  'noise': 'Zbias', 'p': 0.08, 'noise_def': 'XZZX', 'noise_def_kw': {}})
+    if tier != 'quick':
+        # one decoder object in service for a very long time (tens of thousands
+        # of tie-breaks): a resource that runs out must not make later decodes fail
+        cfgs.append({'decoder': 'SweepMatchDecoder', 'code': 'Toric3DCode', 'size': [3, 3, 3],
+                     'noise': 'Z', 'p': 0.3, '_calls': 12000})
+        cfgs.append({'decoder': 'RotatedSweepMatchDecoder', 'code': 'RotatedPlanar3DCode', 'size': [3, 3, 2],
+                     'noise': 'Z', 'p': 0.3, '_calls': 6000})
     for c in cfgs:
         c['_long'] = True
     return cfgs
@@ -167,6 +174,7 @@ def drive(cfg):
     tier = cfg.pop('_tier')
     long_hist = cfg.pop('_long', False)
     intruder_p = cfg.pop('_intruder_p', None)
+    calls = cfg.pop('_calls', None)
     rng = np.random.default_rng(common.seed() + abs(hash(D.config_label(cfg))) % 2**31)
     rec = D.Recorder(cfg)
     code, em = rec.code, rec.em
@@ -187,7 +195,7 @@ def drive(cfg):
                 intruder.decode(np.asarray(code.measure_syndrome(e)).ravel())
     m = code.stabilizer_matrix.shape[0]
     if long_hist:
-        n_calls = 120 if tier == 'quick' else 400
+        n_calls = calls or (120 if tier == 'quick' else 400)
         syns = [np.asarray(code.measure_syndrome(em.generate(code, cfg['p'], rng=rng))).ravel()
                 for _ in range(n_calls // 2)]
         pool = syns[:]
@@ -228,7 +236,7 @@ def drive(cfg):
             intrude()
         rec.decode(0, s.astype(np.uint8))
     # every distinct syndrome once on a fresh object
-    for k, s in enumerate(distinct.values(), start=1):
+    for k, s in enumerate(list(distinct.values())[:(300 if calls else None)], start=1):
         if rec.construct(k):
             rec.decode(k, s.astype(np.uint8))
             rec.objs.pop(k, None)
